@@ -330,3 +330,19 @@ class Extractor:
             end = match_close(s, ob, "(", ")")
             out.append(s[ob + 1:end - 1].strip())
         return out
+
+    def match_arm_block(self, rel, pattern_regex):
+        """D6: the block body `{ ... }` of the match arm whose pattern text matches the regex
+        (exactly once); returned WITH its braces."""
+        s = self.src(rel)
+        ms = list(_code_positions(s, pattern_regex))
+        if len(ms) != 1:
+            raise AnchorLost(f"{rel}: match arm `{pattern_regex}` found {len(ms)} times (need exactly 1)")
+        i = s.index("=>", ms[0].end())
+        i = _skip_ws_comments(s, i + 2)
+        if s[i] != "{":
+            raise AnchorLost(f"{rel}: match arm `{pattern_regex}` has no block body")
+        end = match_close(s, i)
+        text = s[i:end]
+        self._record(rel, "match-arm", pattern_regex, i, end, text, ["D6"])
+        return text
